@@ -20,6 +20,7 @@ import importlib
 import json
 import os
 import re
+import shutil
 import subprocess
 import sys
 import time
@@ -140,6 +141,25 @@ def attribute(rep, facts, repo):
 
 
 def run_tsan_case(binary, line, timeout=120):
+    """one harness process per case; a case line ending in the token LOG gets a fresh log directory under the
+    build directory (removed afterwards) so that the filter's Logger is enabled"""
+    logdir, orig = None, line
+    if line.split()[-1] == "LOG":
+        logdir = vlib.BUILD / "tsan" / "h" / ("c10-logs-%d-%d" % (os.getpid(), int(time.time() * 1e6) % 10 ** 9))
+        logdir.mkdir(parents=True, exist_ok=True)
+        line = " ".join(line.split()[:-1] + [str(logdir)])
+    try:
+        res = _run_tsan_case(binary, line, timeout)
+        res["line"] = orig
+        if logdir is not None:
+            res["cmd"] = "mkdir -p %s && %s" % (logdir, res["cmd"])
+        return res
+    finally:
+        if logdir is not None:
+            shutil.rmtree(logdir, ignore_errors=True)
+
+
+def _run_tsan_case(binary, line, timeout):
     env = dict(os.environ)
     env["TSAN_OPTIONS"] = "halt_on_error=0 exitcode=0 second_deadlock_stack=1 history_size=4"
     t0 = time.time()
@@ -162,26 +182,53 @@ def key_of(name):
 
 
 def driver_verdicts(ctx, facts):
-    """verdicts from the Lean definitions (compiled driver); falls back to the translator's mirror when the
-    driver cannot be built for this table.  -> (verdicts{name: dict}, source)"""
-    mirror = {v["name"]: v for v in facts["discipline"]["verdicts"]}
+    """verdicts from the Lean definitions (compiled driver, table passed on the case line); the summary
+    (roots, reach sets, shared and undisciplined members, spawn sites) is compared with the translator's
+    own evaluation, i.e. with the claims written into the generated file.
+    -> (verdicts{name: dict}, source, problems)"""
+    rt = load_translator()
+    disc = facts["discipline"]
+    mirror = {v["name"]: v for v in disc["verdicts"]}
     rc, log = vlib.lean_build(["bfl_driver"])
     if rc != 0:
-        ctx.notes.append("lean driver does not build for the regenerated table; verdicts taken from the translator's mirror: " + log[-600:])
+        ctx.notes.append("lean driver does not build; verdicts taken from the translator's mirror: " + log[-600:])
         return {n: {"ok": v["ok"], "kind": v["kind"]} for n, v in mirror.items()}, "translator-mirror", ["driver-build-failed"]
-    out = vlib.run_driver(["c10-verdicts", "c10-claims", "c10-undisciplined"])
+    enc = rt.encode_table(facts)
+    out = vlib.run_driver(["c10 verdicts " + enc, "c10 summary " + enc])
     verdicts, problems = {}, []
     toks = out[0].split()
     if toks[:1] != ["ok"]:
-        raise vlib.BuildError("driver c10-verdicts: " + out[0][:200])
+        raise vlib.BuildError("driver c10 verdicts: " + out[0][:200])
     for t in toks[1:]:
         p = t.split("|")
         v = {"kind": p[1], "ok": p[2] == "ok"}
         if not v["ok"]:
             v["witness"] = {"controller": {"fn": p[3], "line": int(p[4]), "acc": p[5]}, "filter": {"fn": p[6], "line": int(p[7]), "acc": p[8]}}
         verdicts[p[0]] = v
-    if out[1].split() != ["ok"] + ["1"] * 6:
-        problems.append("claims of the generated file disagree with the Lean definitions: " + out[1])
+    st = out[1].split()
+    if st[:1] != ["ok"]:
+        raise vlib.BuildError("driver c10 summary: " + out[1][:200])
+    sec, cur = {}, None
+    for t in st[3:]:
+        if t in ("R", "C", "F", "S", "U", "P"):
+            cur = t if t != "R" else ("R2" if "R1" in sec else "R1")
+            sec[cur] = []
+        else:
+            sec[cur].append(t)
+    want = {"R1": [str(i) for i in disc["roots"]["controller"]], "R2": [str(i) for i in disc["roots"]["filter"]],
+            "C": [str(sum(1 << i for i in disc["reach"]["controller"]))], "F": [str(sum(1 << i for i in disc["reach"]["filter"]))],
+            "S": [str(i) for i in disc["shared"]], "U": [str(v["field"]) for v in disc["verdicts"] if not v["ok"]]}
+    for k, w in want.items():
+        if sec.get(k, []) != w:
+            problems.append("Lean definitions and translator's evaluation differ on %s: lean=%s translator=%s" % (
+                {"R1": "controller roots", "R2": "filter roots", "C": "controller reach", "F": "filter reach", "S": "shared members", "U": "undisciplined members"}[k],
+                " ".join(sec.get(k, []))[:200], " ".join(w)[:200]))
+    if st[1] != "1":
+        problems.append("an entry point of the role map does not exist in the table")
+    if st[2] != "1":
+        problems.append("the table refers to ids that do not exist (Table.wfB)")
+    if sec.get("P", []) != ["FilteringAlgorithm::boot/FilteringAlgorithm::filtering_recursion"]:
+        problems.append("thread creation in the library is not exactly boot() -> filtering_recursion: %s" % sec.get("P"))
     if set(verdicts) != set(mirror) or any(verdicts[n]["ok"] != mirror[n]["ok"] for n in verdicts if n in mirror):
         problems.append("translator's evaluation and Lean's evaluation of the discipline differ: lean=%s mirror=%s" % (
             sorted(n for n, v in verdicts.items() if not v["ok"]), sorted(n for n, v in mirror.items() if not v["ok"])))
@@ -198,9 +245,9 @@ def tsan_cases(ctx):
     for i in range(nseeds):
         for kind in KINDS:
             seed = g.r.randint(1, 10 ** 6)
-            rounds = ctx.n(2, g.r.choice([2, 3, 5]))
+            rounds = ctx.n(3, g.r.choice([2, 3, 5]))
             pause = g.r.choice([0, 50, 100, 300]) if not ctx.quick() else g.r.choice([50, 100])
-            cases.append("race %s %d %d %d" % (kind, seed, rounds, pause))
+            cases.append("race %s %d %d %d %s" % (kind, seed, rounds, pause, "LOG" if (ctx.quick() or g.r.random() < 0.7) else "-"))
     return cases
 
 
@@ -320,9 +367,9 @@ def run(ctx):
     # ---- evidence
     hist = {}
     for r in runs:
-        for tok in r["out"].split()[2:]:
+        for tok in r["out"].split()[1:]:
             k, _, v = tok.partition("=")
-            if k in ("steps", "cmds"):
+            if k in ("steps", "cmds", "logging", "kind"):
                 continue
             if "/" in v:
                 a, b = v.split("/")
